@@ -1118,6 +1118,17 @@ Proof.
   destruct (map h_id (filter is_task (destroy_hooks_at hooks w))); cbn; split; try reflexivity; lia.
 Qed.
 
+Lemma force_error_frame s s2 tf : force_error s = (s2, tf) ->
+  e_pend s2 = e_pend s /\ starts tf = [] /\ collects tf = [] /\ cancels tf = [].
+Proof.
+  unfold force_error. destruct (e_st s);
+    try (intro H; inversion H; subst; cbn; repeat split; reflexivity).
+  pose proof (set_soeor_pend s) as A. destruct (set_soeor_if_empty s) as [s1 d1]. cbn [fst] in A.
+  pose proof (set_eoeor_pend s1) as B. destruct (set_eoeor_if_empty s1) as [s3 d2]. cbn [fst] in B.
+  intro H; inversion H; subst. cbn [set_st e_pend]. split; [congruence|].
+  destruct d1, d2; cbn; auto.
+Qed.
+
 Lemma run_op_wbal g hooks i o s s' t r : run_op hooks i o s = (s', t, r) -> wbal g s t s'.
 Proof.
   unfold run_op. destruct (o_kind o).
@@ -1125,10 +1136,10 @@ Proof.
   - intro H; inversion H; subst. apply wbal_same; reflexivity.
   - destruct (transition hooks (oracle_of i o) GO_ERROR (o_body o) s) as [[s1 t1] r1] eqn:E.
     apply (transition_balanced g) in E. apply balanced_wbal in E.
-    assert (P : forall x, e_pend (match e_st s1 with ERROR => s1 | _ => set_st ERROR s1 end) = e_pend x -> e_pend s1 = e_pend x).
-    { intros x. destruct (e_st s1); cbn; auto. }
+    destruct (force_error s1) as [s2 tf] eqn:Ef.
+    destruct (force_error_frame _ _ _ Ef) as (P & A & B & _).
     destruct r1; intro H; inversion H; subst; try exact E;
-      unfold wbal, pn in *; rewrite <- (P _ eq_refl); exact E.
+      (eapply wbal_app; [exact E|apply wbal_same; auto]).
   - unfold leave_all. destruct (run_pass hooks (oracle_of i o) (MLeave (e_st s)) wall s) as [[s1 t1] p] eqn:E.
     apply (run_pass_balanced g) in E. apply balanced_wbal in E.
     destruct (cancel_all_proj s1) as (A & B & C).
